@@ -1,0 +1,62 @@
+//go:build verif
+
+// Contracts for parent / child (extension) stores (C15): where child data lives, how operations are routed. Comments only.
+package boltz
+
+// sEnts(store, tx): the bucket that holds the store's entities - its own path for a root store, the parent's for a child
+//@ define sEnts(store, tx) = ite(store.parent != nil, entsB(ref(store.parent), tx), pathB(tx, arr(store.entityPath), len(store.entityPath)))
+//@ define sEntHas(store, tx, id) = sel(bktHas[sEnts(store, tx)], id) && sel(bktSub[sEnts(store, tx)], id) != 0
+// a store's place in the hierarchy is fixed when it is made
+//@ immutable H.boltz.BaseStore.entityPath.len
+//@ immutable H.boltz.BaseStore.entityPath.nil
+//@ immutable H.boltz.BaseStore.entityPath.arr.
+//@ immutable H.boltz.BaseStore.isExtended
+//@ func (*BaseStore).IsChildStore
+//@   props C15
+//@   pure
+//@   ensures[child-iff-it-has-a-parent] result == (store.parent != nil)
+//@ func (*BaseStore).IsExtended
+//@   props C15
+//@   pure
+//@   ensures result == store.isExtended
+// an update through the parent store is routed to the child store that holds data for the entity, with the same
+// context and field checker; an entity no child store claims is updated by the parent itself
+//@ func (EntityStore).Update
+//@   modifies *, ocCnt, ocFn, ocRecv, cxN, cxWho, cxPhase, cxCtx, cxPersist, edDone
+//@ func (*ChildStoreUpdateHandler).HandleUpdate
+//@   props C07 C15
+//@   errflow
+//@   nosafety
+//@   modifies *, ocCnt, ocFn, ocRecv, cxN, cxWho, cxPhase, cxCtx, cxPersist, edDone
+//@   callpre[the-child-store-updates-with-the-same-context-and-checker] Update@1: recv == self.Store && arg0 == ctx && arg2 == checker
+//@   ensures[not-mapped-is-not-handled] !result0 ==> result1 == nil
+// creating an entity through a child store creates the parent's entity bucket and the child's data path below it
+//@ func (storeInternal).getOrCreateEntitiesBucket
+//@   modifies bktHas, bktVal, bktSub
+//@   ensures[the-entities-bucket] result != nil && result.ErrorHolderImpl != nil && (result.Err == nil ==> result.Bucket != nil && ref(result.Bucket) == entsB(self, tx))
+//@   ensures[no-plain-entry-changes] plainSame() && bucketsKept()
+//@ func GetOrCreatePath
+//@   modifies bktHas, bktVal, bktSub
+//@   censures[the-bucket-at-the-path] result != nil && result.ErrorHolderImpl != nil && (result.Err == nil ==> result.Bucket != nil && ref(result.Bucket) == pathB(tx, arr(path), len(path)))
+//@ func (*BaseStore).getOrCreateEntitiesBucket
+//@   props C15
+//@   nosafety
+//@   modifies bktHas, bktVal, bktSub
+//@   ensures[the-entities-bucket] result != nil && result.ErrorHolderImpl != nil && (result.Err == nil ==> result.Bucket != nil && ref(result.Bucket) == sEnts(store, tx))
+//@ func (*BaseStore).getOrCreateEntityBucket
+//@   props C15
+//@   nosafety
+//@   modifies bktHas, bktVal, bktSub
+//@   ensures[a-bucket-or-an-error] result != nil && result.ErrorHolderImpl != nil
+//@   ensures[the-entity-exists-in-the-parent-store] result.Err == nil ==> sEntHas(store, tx, str(id))
+//@   ensures[a-root-store's-entity-is-its-bucket] result.Err == nil && store.parent == nil ==> result.Bucket == sel(bktSub[sEnts(store, tx)], str(id))
+//@   ensures[child-data-lives-under-the-parent's-entity] result.Err == nil && store.parent != nil ==> ref(result.Bucket) == pathUnder(sel(bktSub[sEnts(store, tx)], str(id)), arr(store.entityPath), len(store.entityPath))
+// loading: a plain child store sees only entities with child data; an extended one also sees parent-only entities
+//@ func (*BaseStore).getEntityBucketForLoad
+//@   props C15
+//@   nosafety
+//@   modifies *
+//@   ensures[read-only] dbSame()
+//@   ensures[a-plain-child-store-loads-only-entities-with-child-data] !store.isExtended && store.parent != nil && result != nil ==> sEnts(store, tx) != 0 && sEntHas(store, tx, id) && ref(result.Bucket) == pathUnder(sel(bktSub[sEnts(store, tx)], id), arr(store.entityPath), len(store.entityPath))
+//@   ensures[an-extended-store-also-loads-parent-only-entities] store.isExtended && store.parent != nil && entPresent(ref(store.parent), id) ==> result != nil
+//@   ensures[an-extended-store-loads-nothing-the-parent-lacks] store.isExtended && store.parent != nil && result != nil ==> entPresent(ref(store.parent), id) || sEntHas(store, tx, id)
